@@ -80,7 +80,8 @@ def run_repro(scn):
         h["share_segments"] = True
         run_digest(h, {"uuid_seed": scn["u1"] + 99, "container_offset": 900})
         scn2 = dict(scn, share_segments=True)
-    d2, s2, out2, rec2 = run_digest(scn2, {"uuid_seed": scn["u2"], "container_offset": scn.get("off2", 7000)}, internal)
+    d2, s2, out2, rec2 = run_digest(scn2, {"uuid_seed": scn["u2"], "container_offset": scn.get("off2", 7000),
+                                           "uuid_mode": scn.get("uuid_mode")}, internal)
     sysdrv.SEGMENT_CACHE.clear()
     res = {"violation": None, "discard": None, "faults": {"uuid_stream_changed": 1, "container_numbers_shifted": 1,
                                                            "preceding_simulations": scn.get("fillers", 1)},
@@ -154,6 +155,7 @@ def gen_repro(r, tier):
     scn["off2"] = r.choice([2, 10, 99, 1000, 123456])
     scn["fillers"] = r.randint(0, 3)
     scn["kind"] = "repro"
+    scn["uuid_mode"] = r.choice([None, None, "shared_prefix", "shared_suffix"])
     if "pipes" in scn and r.random() < 0.25:
         scn["share_segments"] = {"tps": r.choice([t for t in (1, 2, 5, 10, 20, 100) if t != scn["cfg"]["tps"]]),
                                  "cpus": scn["cfg"]["cpus"]}
